@@ -38,10 +38,10 @@ _SM_WORLD = ("explicit-state BFS (mc::Bfs) over the real <manager>::impl + chann
 _SM_RULE = ("state = byte image of security manager object + connection data + IO script + bond DB + reference; transition = one real call "
             "(l2cap_input with one PDU variant, l2cap_output poll, yes_no_response, link-layer encryption switch as link_layer.hpp does it, "
             "initial configuration choice); classes = distinct (PDU kind, variant class, reference phase, outcome/reason) and completion / key / status kinds observed")
-_SM_BOUND = ("per security manager variant x IO configuration (10 units quick, 22 thorough): quick = all event sequences up to depth 10 de-duplicated on the state image; "
+_SM_BOUND = ("per security manager variant x IO configuration (10 units quick, 22 thorough): quick = all event sequences up to depth 8 (from the fresh state and from the scripted start states) de-duplicated on the state image; "
              "thorough = full reachable state space (fixpoint). Alphabet: every SMP opcode 0x00..0x0f + empty PDU; request/confirm/random/public key/DHKey check each as "
-             "{correct value, wrong value, length-1, length+1, invalid parameter (io 5, oob 2, key size 6/17, key distribution 0xf0)}; user yes/no at any time; output poll; "
-             "encryption on (pairing key / bond key) and off; find_key probes for 9 EDIV/Rand pairs after every step; bond DB preloaded {empty, this peer, other peer, LESC bond}; scripted prefixes as additional start states (aborted / declined numeric comparison whose Ea was already verified, completed legacy pairing, completed LESC pairing)")
+             "{correct value, wrong values (garbage; first / middle / last / all-but-last octet wrong for Mconfirm and Ea; confirm values for passkey mod 65536 and passkey with changed upper half), length-1, length+1, invalid parameter (io 5, oob 2, key size 6/17, key distribution 0xf0)}; user yes/no at any time; output poll; "
+             "encryption on (pairing key / bond key) and off; find_key probes for 24 EDIV/Rand pairs (zero, single bits in every 16 bit lane incl. bit 32 and 63, the bonded pairs and their one-bit neighbours) after every step; bond DB (earlier entry + bond made on this connection) preloaded {empty, this peer, other peer, LESC bond under ediv=rand=0 with a recognisable key}; scripted prefixes as additional start states (aborted / declined numeric comparison whose Ea was already verified, completed legacy pairing, completed LESC pairing)")
 _SM_ASSUME = [
     "toolbox is a fake: 'cryptographically correct' means equal to the tagged hash of the same inputs; srand, nonce, passkey, key pair are constants (1-2 patterns per value kind)",
     "user answers are asynchronous (the scripted application stores the pairing_yes_no_response and answers in a later event); synchronous answers are covered by /repo/tests",
@@ -56,7 +56,7 @@ reg("C35",
     technique=_SM_WORLD + 'oracle: local_device_pairing_status() (and link_state::pairing_status() after encryption start) equals what the reference saw performed: legacy with TK=0 or LESC exchange without user confirmation -> unauthenticated, legacy passkey/OOB TK or numeric comparison confirmed by the user -> authenticated, otherwise no key',
     rule=_SM_RULE,
     bound=_SM_BOUND,
-    units=[dict(src="harness/C32_sm.cpp", defs=["ORACLE=35", "QDEPTH=10", "TDEPTH=1000"],
+    units=[dict(src="harness/C32_sm.cpp", defs=["ORACLE=35", "QDEPTH=8", "TDEPTH=1000"],
                 extra_src=["@REPO@/bluetoe/utility/address.cpp"], variants=_sm_variants())],
     quick_deadline=40, thorough_deadline=400,
     assumptions=_SM_ASSUME + ['authenticated_key and authenticated_key_with_secure_connection both count as authenticated', 'the status of a link encrypted with a key from the bond DB is not judged (statement silent)', "the LESC exchange the implementation runs is always Just-Works/numeric-comparison shaped (f4 with z=0, f6 with r=0); the only authentication the reference can see is the user's yes"],
